@@ -20,7 +20,10 @@ monkey-patching from this process.
         (InitPerformanceInfo, LaunchTask, SetLaunchTime | Wait, FinalisePerformanceInfo, HandleTaskExit ->
         `_setExitReason`), `restart`, `kill`, `shutdown`, `exitReason`, with a harness task generator that returns a
         scripted fake Task or raises OSError / JobLaunchError / RuntimeError (script entries "Reason:os",
-        "Reason:launch", "Reason:raise"); the launch happens inside `run()`, the part after
+        "Reason:launch", "Reason:raise"), or returns a Task that exits with the scripted reason and is followed by a
+        fault in the engine's own post-exit bookkeeping ("Reason:perf": the task's performance information raises in
+        FinalisePerformanceInfo, "Reason:matrix": the update of the performance table raises once ->
+        HandleTaskObservableException -> `_setExitReason`); the launch happens inside `run()`, the part after
         `observe_on(taskPoolScheduler)` (waiting for the task and handling its exit) is held in the EngineTask
         pool until the harness chooses the `exit` of that component.
   * Controller.comp_lock            -> `HLock`, a re-entrant lock whose outermost acquire / release are yield
@@ -340,6 +343,7 @@ def install():
             self.schedulerId = "stub"
             self.engine = engine
             self.killed = False
+            self.waited = False
 
             class _Perf:
                 def getElements(self):
@@ -355,6 +359,7 @@ def install():
             t0 = datetime.datetime.now()
             while datetime.datetime.now() == t0:      # task-run-time is a divisor in FinalisePerformanceInfo
                 pass
+            self.waited = True
             return self.returncode
 
         def kill(self):
@@ -383,7 +388,35 @@ def install():
                 raise RE.JobLaunchError("backend refused the task", None)
             if how == "raise":
                 raise RuntimeError("task generator is broken")
-            return StubTask(XR[base], eng)
+            task = StubTask(XR[base], eng)
+            if how == "perf":
+                # fault AFTER the task exited: the backend cannot deliver the performance information of the finished
+                # task (FinalisePerformanceInfo raises -> HandleTaskObservableException)
+                # (once: the engine reads it again whenever it computes its state dictionary)
+                # and only after wait() returned: before that the task has not exited)
+                class _NoPerfOnce:
+                    failed = False
+
+                    def getElements(self):
+                        if task.waited and not self.failed:
+                            self.failed = True
+                            raise RuntimeError("performance information of the task is unavailable")
+                        return {}
+                task.performanceInfo = _NoPerfOnce()
+            elif how == "matrix":
+                # fault AFTER the task exited: the update of the engine's performance table fails once
+                pm = eng.performanceMatrix
+
+                def remove_rows_once(*a_, **k_):
+                    try:
+                        del pm.removeRows
+                    except AttributeError:
+                        pass
+                    raise RuntimeError("performance table cannot be updated")
+                pm.removeRows = remove_rows_once
+            elif how:
+                raise HarnessError("unknown launch variant %r" % (kind,))
+            return task
 
         eng.taskGenerator = generator
 
@@ -575,7 +608,8 @@ class Sim:
     notification of c (enabled when that notification is at the head of its `observe_on` queue); `["finA", c]`,
     `["finB", c]`, `["finC", c]` run the same delivery of a finished-notification in three steps (see HLock).
     The exit reason of the k-th execution of c is scripts[c][k] (Success beyond the end of the script; a suffix
-    ":os" / ":launch" / ":raise" makes the task generator of a real engine raise instead of returning a task).
+    ":os" / ":launch" / ":raise" makes the task generator of a real engine raise instead of returning a task, a
+    suffix ":perf" / ":matrix" makes a step of the real engine's pipeline raise AFTER the task exited with the reason).
     `["next"]` is recorded (never chosen) when the stage loop has called Controller.initialise() for the next stage;
     right after it the chooser may let events happen before the run() of the new stage starts (the inter-stage
     window: real notifications do not wait for run())."""
